@@ -16,36 +16,36 @@ Proof. intros. unfold receiver. rewrite H, H0. reflexivity. Qed.
    holding dynamic type t for interface i, the body that runs is the method of the impl block registered
    for (i, t) - found by find_impl_for_struct - although the lookup goes through the T::m table; it runs
    under the context of THAT block (mk_entry d m carries (i_iface d, i_type d)) *)
-Lemma dispatch_on_dynamic_type_l : forall ds r st rc l i t p d m arg,
+Lemma dispatch_on_dynamic_type_l : forall n hs ds r st rc l i t p d m arg,
   wf_impls ds -> register_all empty_registry ds = inl r -> s_funcs st = r_funcs r ->
   resolve (s_vars st) rc = Some l -> read (s_vars st) l = Some (VIface i t p) ->
   find_impl ds t i = Some d -> In m (i_methods d) ->
-  call st rc (m_name m) arg = invoke st l (VIface i t p) t p (mk_entry d m) arg.
+  call n hs st rc (m_name m) arg = invoke n hs st l (VIface i t p) t p (mk_entry d m) arg.
 Proof.
-  intros ds r st rc l i t p d m arg W R F RS RD FI Hm.
+  intros n hs ds r st rc l i t p d m arg W R F RS RD FI Hm.
   apply find_impl_some in FI as [Hd [_ Ht]].
   eapply call_dispatches_l; eauto. apply receiver_of_read_iface; assumption.
 Qed.
 
 (* the same for a receiver of the concrete type (value, pointer to struct, array element, struct parameter) *)
-Lemma dispatch_concrete_receiver_l : forall ds r st rc l t p d m arg,
+Lemma dispatch_concrete_receiver_l : forall n hs ds r st rc l t p d m arg,
   wf_impls ds -> register_all empty_registry ds = inl r -> s_funcs st = r_funcs r ->
   resolve (s_vars st) rc = Some l -> read (s_vars st) l = Some (VConc t p) ->
   In d ds -> i_type d = t -> In m (i_methods d) ->
-  call st rc (m_name m) arg = invoke st l (VConc t p) t p (mk_entry d m) arg.
+  call n hs st rc (m_name m) arg = invoke n hs st l (VConc t p) t p (mk_entry d m) arg.
 Proof.
   intros. eapply call_dispatches_l; eauto. apply receiver_of_read_conc; assumption.
 Qed.
 
 (* re-binding: whatever x held before, after  x = src  a call on x runs the impl of src's dynamic type *)
-Lemma rebinding_switches_impl_l : forall ds r st st' x i src sv t2 p d m arg,
+Lemma rebinding_switches_impl_l : forall n hs ds r st st' x i src sv t2 p d m arg,
   wf_impls ds -> register_all empty_registry ds = inl r -> s_funcs st = r_funcs r ->
   alookup src (s_vars st) = Some sv -> src_view sv = Some (t2, p) ->
   bind st x i src = Ok st' ->
   find_impl ds t2 i = Some d -> In m (i_methods d) ->
-  call st' (RVar x) (m_name m) arg = invoke st' (LVar x) (VIface i t2 p) t2 p (mk_entry d m) arg.
+  call n hs st' (RVar x) (m_name m) arg = invoke n hs st' (LVar x) (VIface i t2 p) t2 p (mk_entry d m) arg.
 Proof.
-  intros ds r st st' x i src sv t2 p d m arg W R F S V B FI Hm.
+  intros n hs ds r st st' x i src sv t2 p d m arg W R F S V B FI Hm.
   apply bind_ok_inv in B as [sv' [t' [p' [S' [V' [_ ->]]]]]].
   rewrite S in S'. inversion S'; subst sv'. rewrite V in V'. inversion V'; subst t' p'.
   eapply dispatch_on_dynamic_type_l; eauto; simpl.
@@ -54,25 +54,25 @@ Qed.
 
 (* self is the receiver's current state: a direct write to the receiver just before the call is what
    the body reads, through the variable itself and through a pointer to it *)
-Lemma self_sees_latest_write_l : forall hs st x f z st1 t fs,
-  alookup x (s_vars st) = Some (VConc t (PStruct fs)) -> step hs st (OSet x f z) = Ok st1 ->
+Lemma self_sees_latest_write_l : forall n hs st x f z st1 t fs,
+  alookup x (s_vars st) = Some (VConc t (PStruct fs)) -> step n hs st (OSet x f z) = Ok st1 ->
   receiver (s_vars st1) (RVar x) = Some (LVar x, VConc t (PStruct (aset f z fs)), t, PStruct (aset f z fs)) /\
   (forall q, alookup q (s_vars st1) = Some (VPtr x) -> receiver (s_vars st1) (RPtr q) = receiver (s_vars st1) (RVar x)) /\
   (forall fr, f_self fr = PStruct (aset f z fs) -> eval fr (EField f) = inl z).
 Proof.
-  intros hs st x f z st1 t fs A H. cbn [step] in H. rewrite A in H.
+  intros n hs st x f z st1 t fs A H. unfold step in H. cbn [step_g] in H. rewrite A in H.
   destruct (alookup f fs) eqn:F; [|discriminate]. inversion H; subst; clear H. simpl.
   split; [|split].
   - apply receiver_conc_var. apply alookup_aset_same.
   - intros q Q. apply receiver_ptr. assumption.
   - intros fr S. simpl. rewrite S. rewrite alookup_aset_same. reflexivity.
 Qed.
-Lemma self_sees_latest_elem_write_l : forall hs st a k f z st1 t es fs,
+Lemma self_sees_latest_elem_write_l : forall n hs st a k f z st1 t es fs,
   alookup a (s_vars st) = Some (VArr t es) -> nth_error es k = Some (PStruct fs) ->
-  step hs st (OSetElem a k f z) = Ok st1 ->
+  step n hs st (OSetElem a k f z) = Ok st1 ->
   receiver (s_vars st1) (RElem a k) = Some (LElem a k, VConc t (PStruct (aset f z fs)), t, PStruct (aset f z fs)).
 Proof.
-  intros hs st a k f z st1 t es fs A N H. cbn [step] in H. simpl in H. rewrite A, N in H.
+  intros n hs st a k f z st1 t es fs A N H. unfold step in H. cbn [step_g] in H. simpl in H. rewrite A, N in H.
   destruct (alookup f fs) eqn:F; [|discriminate]. inversion H; subst; clear H. simpl.
   eapply receiver_elem.
   - apply alookup_aset_same.
@@ -80,18 +80,18 @@ Proof.
 Qed.
 
 (* member writes made by the method are in the receiver after the call; no other cell changes *)
-Lemma self_writes_visible_l : forall st rc m arg st' z, call st rc m arg = Ok (st', z) ->
+Lemma self_writes_visible_l : forall n hs st rc m arg st' z, call (S n) hs st rc m arg = Ok (st', z) ->
   exists l v t self fe fr',
     receiver (s_vars st) rc = Some (l, v, t, self) /\
     alookup (method_key t m) (s_funcs st) = Some fe /\
-    exec_body (nested_self (s_funcs st) t) (frame0 fe self arg (s_statics st) (s_out st)) (m_body (fe_meth fe)) = inl fr' /\
+    exec_body (run_n n hs) hs st t (frame0 fe self arg st) (m_body (fe_meth fe)) = inl fr' /\
     read (s_vars st') l = Some (with_payload v (f_self fr')) /\
     (forall l', disjoint l l' -> read (s_vars st') l' = read (s_vars st) l').
 Proof.
-  intros st rc m arg st' z H.
-  destruct (call_ok_inv _ _ _ _ _ _ H) as [l [v [t [self [fe [RC [F IV]]]]]]].
-  destruct (invoke_ok_inv _ _ _ _ _ _ _ _ _ IV) as [fr' [B [V _]]].
-  apply run_method_inv in B as [B _].
+  intros n hs st rc m arg st' z H.
+  destruct (call_g_ok_inv _ _ _ _ _ _ _ H) as [l [v [t [self [fe [RC [F IV]]]]]]].
+  destruct (invoke_g_ok_inv _ _ _ _ _ _ _ _ _ _ IV) as [fr' [B [V _]]].
+  simpl in B. apply run_method_g_inv in B as [B _].
   exists l, v, t, self, fe, fr'. split; [assumption|split; [assumption|split; [assumption|]]].
   destruct (receiver_current_l _ _ _ _ _ _ RC) as [RD [PO _]].
   rewrite V. split.
@@ -99,64 +99,124 @@ Proof.
     destruct v; simpl in PO; try discriminate; [left|right]; eauto.
   - intros l' D. apply read_write_other; assumption.
 Qed.
+(* with fuel 0 nothing runs, so every successful call has the form above *)
+Lemma call_ok_fuel : forall n hs st rc m arg st' z, call n hs st rc m arg = Ok (st', z) -> exists k, n = S k.
+Proof.
+  intros [|k] hs st rc m arg st' z H; [|eauto]. exfalso.
+  destruct (call_g_ok_inv _ _ _ _ _ _ _ H) as [l [v [t [self [fe [_ [_ IV]]]]]]].
+  destruct (invoke_g_ok_inv _ _ _ _ _ _ _ _ _ _ IV) as [fr' [B _]]. discriminate.
+Qed.
 
-(* every method sees the statics of the block that declares it, whatever the receiver form:
-   its frame starts under that pair's context *)
-Lemma method_sees_own_statics_l : forall fe self arg ss out n,
-  eval (frame0 fe self arg ss out) (EStatic n) =
-  match alookup (static_key (fe_iface fe) (fe_type fe) n) ss with Some v => inl v | None => inr (EUndefVar n) end.
+(* the same inside a body, for the objects the body declares: SOp (OCall ..) is the same call path *)
+Lemma body_call_is_call_l : forall n hs g t fr rc m arg,
+  exec_stmt (run_n n hs) hs g t fr (SOp (OCall rc m arg)) =
+  match call n hs (st_of g fr) rc m arg with
+  | Fail o x => inr (o, x)
+  | Ok (st', z) => inl {| f_self := f_self fr; f_arg := f_arg fr; f_vars := s_vars st'; f_statics := s_statics st';
+                          f_ctx := s_ctx st'; f_out := s_out st' ++ [("", [z])] |}
+  end.
+Proof.
+  intros. cbn [exec_stmt step_g]. unfold call.
+  destruct (call_g (run_n n hs) (st_of g fr) rc m arg) as [[st' z]|o x]; reflexivity.
+Qed.
+
+(* what a nested  self.m(..)  of a VOID method wrote to self is in the caller's self afterwards (the write-back after
+   a fall-through end); the caller's argument, objects and impl context are as before *)
+Lemma nested_void_self_call_writes_visible_l : forall n hs g t m z fr fr1 r fe,
+  wf_ctx (f_ctx fr) ->
+  alookup (method_key t m) (s_funcs g) = Some fe -> m_void (fe_meth fe) = true ->
+  nested_self_g (run_n n hs) g t m z fr = inl (fr1, r) ->
+  exists fr', run_n n hs fe t (f_self fr) z (st_of g fr) = inl (fr', r) /\
+    f_self fr1 = f_self fr' /\ r = 0%Z /\ f_ctx fr1 = f_ctx fr /\ f_vars fr1 = f_vars fr /\ f_arg fr1 = f_arg fr.
+Proof.
+  intros n hs g t m z fr fr1 r fe W L V H.
+  apply nested_self_g_inv in H as [fe0 [fr' [L0 [R ->]]]]. rewrite L in L0. inversion L0; subst fe0.
+  exists fr'. simpl. rewrite V.
+  destruct (run_n_basic n hs fe t (f_self fr) z (st_of g fr) fr' r W R) as [E _]. simpl in E.
+  repeat split; auto.
+  destruct n as [|n]; [discriminate|]. simpl in R. apply run_method_g_inv in R as [_ Z]. rewrite V in Z. exact Z.
+Qed.
+
+(* every method sees the statics of the block that declares it, whatever the receiver form and however deep the
+   call is nested: its frame starts under that pair's context ... *)
+Lemma method_sees_own_statics_l : forall fe self arg st n,
+  eval (frame0 fe self arg st) (EStatic n) =
+  match alookup (static_key (fe_iface fe) (fe_type fe) n) (s_statics st) with Some v => inl v | None => inr (EUndefVar n) end.
 Proof. intros. reflexivity. Qed.
+(* ... and keeps it: after any prefix of the body - with calls nested to any depth in it - the current pair is still
+   the declaring one, so a static name still denotes that pair's cell *)
+Lemma body_keeps_declaring_context_l : forall n hs fe t self arg st b fr1,
+  exec_body (run_n n hs) hs st t (frame0 fe self arg st) b = inl fr1 ->
+  f_ctx fr1 = enter_ctx (s_ctx st) (fe_iface fe, fe_type fe) /\
+  c_cur (f_ctx fr1) = Some (fe_iface fe, fe_type fe) /\
+  forall s, eval fr1 (EStatic s) =
+    match alookup (static_key (fe_iface fe) (fe_type fe) s) (f_statics fr1) with Some v => inl v | None => inr (EUndefVar s) end.
+Proof.
+  intros n hs fe t self arg st b fr1 H.
+  destruct (exec_body_basic _ hs st t (run_n_basic n hs) _ (frame0 fe self arg st) _ (wf_enter _ _) H) as [C _].
+  simpl in C. split; [assumption|]. rewrite C. split; [reflexivity|]. intros s. simpl. rewrite C. reflexivity.
+Qed.
 
 (* the impl context the caller had is in force again after a call, at top level and inside a body *)
 Lemma impl_context_restored_l :
-  (forall st rc m arg st' z, call st rc m arg = Ok (st', z) -> s_ctx st' = s_ctx st) /\
-  (forall funcs t m z fr fr1 r, nested_self funcs t m z fr = inl (fr1, r) -> f_ctx fr1 = f_ctx fr).
+  (forall n hs st rc m arg st' z, wf_ctx (s_ctx st) -> call n hs st rc m arg = Ok (st', z) -> s_ctx st' = s_ctx st) /\
+  (forall n hs g t m z fr fr1 r, wf_ctx (f_ctx fr) -> nested_self_g (run_n n hs) g t m z fr = inl (fr1, r) -> f_ctx fr1 = f_ctx fr) /\
+  (forall n hs g t s fr fr', wf_ctx (f_ctx fr) -> exec_stmt (run_n n hs) hs g t fr s = inl fr' -> f_ctx fr' = f_ctx fr).
 Proof.
-  split.
-  - intros. apply (call_keys_l _ _ _ _ _ _ H).
-  - intros funcs t m z fr fr1 r H. apply (nested_self_ok_any funcs t _ _ _ _ _ H).
+  split; [|split].
+  - intros n hs st rc m arg st' z W H. apply (call_n_basic n hs _ _ _ _ _ _ W H).
+  - intros n hs g t m z fr fr1 r W H. apply nested_self_g_inv in H as [fe [fr' [_ [R ->]]]]. simpl.
+    apply (run_n_basic n hs fe t (f_self fr) z (st_of g fr) fr' r W R).
+  - intros n hs g t s fr fr' W H. apply (exec_stmt_basic _ hs g t (run_n_basic n hs) _ _ _ W H).
 Qed.
 
 (* `return self;` of a primitive self returns the receiver's value *)
-Lemma return_self_returns_receiver_l : forall cb fe v arg ss out,
-  m_body (fe_meth fe) = [] -> m_ret (fe_meth fe) = ESelf ->
-  exists fr', run_method cb fe (PPrim v) arg ss out = inl (fr', v).
+Lemma return_self_returns_receiver_l : forall run hs fe t v arg st,
+  m_body (fe_meth fe) = [] -> m_ret (fe_meth fe) = ESelf -> m_void (fe_meth fe) = false ->
+  exists fr', run_method_g run hs fe t (PPrim v) arg st = inl (fr', v).
 Proof.
-  intros cb fe v arg ss out B R. unfold run_method. rewrite B, R. simpl. eauto.
+  intros run hs fe t v arg st B R V. unfold run_method_g. rewrite B, R, V. simpl. eauto.
 Qed.
 
-(* a call on a receiver of dynamic type t leaves the statics of every pair with another type alone ... *)
-Lemma impl_statics_separate_l : forall ds r st rc m arg st' z l v self t i' t' n',
-  wf_impls ds -> register_all empty_registry ds = inl r -> s_funcs st = r_funcs r ->
-  call st rc m arg = Ok (st', z) -> receiver (s_vars st) rc = Some (l, v, t, self) ->
-  no_colon i' = true -> no_colon t = true -> no_colon t' = true -> no_colon n' = true -> t' <> t ->
+(* a call on a receiver whose type lies in a set TS of types that is closed under "a method of the type declares an
+   object of" leaves the statics of every pair with a type outside TS alone, whatever the bodies do and however
+   deep they call ... *)
+Lemma impl_statics_separate_l : forall (TS : name -> Prop) n hs ds r st rc m arg st' z l v self t i' t' n',
+  wf_impls ds -> register_all empty_registry ds = inl r -> s_funcs st = r_funcs r -> wf_ctx (s_ctx st) ->
+  closed (s_funcs st) TS -> (forall x, TS x -> no_colon x = true) ->
+  call n hs st rc m arg = Ok (st', z) -> receiver (s_vars st) rc = Some (l, v, t, self) -> TS t ->
+  no_colon i' = true -> no_colon t' = true -> no_colon n' = true -> ~ TS t' ->
   alookup (static_key i' t' n') (s_statics st') = alookup (static_key i' t' n') (s_statics st).
 Proof.
-  intros ds r st rc m arg st' z l v self t i' t' n' W R F C RC Hi' Ht Ht' Hn' NE.
-  eapply call_statics_type_l; eauto.
+  intros TS n hs ds r st rc m arg st' z l v self t i' t' n' W R F WC CL NC C RC Tt Hi' Ht' Hn' NE.
+  eapply call_statics_closed_l; eauto.
   - rewrite F. eapply registered_funcs_typed; eauto.
-  - apply type_keys_other_type; assumption.
+  - apply types_keys_other_type; assumption.
 Qed.
+(* ... in particular of every other type when the methods of the receiver's type declare no objects of other types *)
+Lemma closed_single_type : forall fs t,
+  (forall k fe, alookup k fs = Some fe -> fe_type fe = t -> vars_typed (eq t) (m_locals (fe_meth fe))) -> closed fs (eq t).
+Proof. intros fs t H k fe L E. apply (H k fe L). symmetry; assumption. Qed.
 (* ... and when the method found makes no nested call, of every pair but the one that declares it *)
-Lemma impl_statics_separate_leaf_l : forall st rc m arg st' z l v self t fe i' t' n',
-  call st rc m arg = Ok (st', z) -> receiver (s_vars st) rc = Some (l, v, t, self) ->
+Lemma impl_statics_separate_leaf_l : forall n hs st rc m arg st' z l v self t fe i' t' n',
+  call n hs st rc m arg = Ok (st', z) -> receiver (s_vars st) rc = Some (l, v, t, self) ->
   alookup (method_key t m) (s_funcs st) = Some fe -> has_calls (m_body (fe_meth fe)) = false ->
   no_colon (fe_iface fe) = true -> no_colon i' = true -> no_colon (fe_type fe) = true -> no_colon t' = true ->
   (i', t') <> (fe_iface fe, fe_type fe) ->
   alookup (static_key i' t' n') (s_statics st') = alookup (static_key i' t' n') (s_statics st).
 Proof.
-  intros st rc m arg st' z l v self t fe i' t' n' C RC F HC Hi Hi' Ht Ht' NE.
+  intros n hs st rc m arg st' z l v self t fe i' t' n' C RC F HC Hi Hi' Ht Ht' NE.
   eapply call_statics_leaf_l; eauto. apply ctx_keys_other_pair; assumption.
 Qed.
 
 (* statics live for the whole run: after any history every declared static still has a value *)
-Lemma impl_static_persists_l : forall ds r vs hs ops st' d nz,
+Lemma impl_static_persists_l : forall n ds r vs hs ops st' d nz,
   wf_impls ds -> register_all empty_registry ds = inl r ->
-  run_ops hs (init_state r vs) ops = Ok st' -> In d ds -> In nz (i_statics d) ->
+  run_ops n hs (init_state r vs) ops = Ok st' -> In d ds -> In nz (i_statics d) ->
   exists z, alookup (static_key (i_iface d) (i_type d) (fst nz)) (s_statics st') = Some z.
 Proof.
-  intros ds r vs hs ops st' d nz W R RO Hd Hn.
-  apply alookup_in_keys. rewrite (run_ops_keys _ _ _ _ RO). simpl.
+  intros n ds r vs hs ops st' d nz W R RO Hd Hn.
+  apply alookup_in_keys. destruct (run_ops_keys n hs ops (init_state r vs) st' wf_ctx0 RO) as [K _]. rewrite K. simpl.
   destruct (register_all_impls _ _ W R) as [_ ->]. apply fold_add_statics_new; assumption.
 Qed.
 
@@ -173,15 +233,15 @@ Proof.
   apply impl_exists_false; assumption.
 Qed.
 (* ... and parameter passing *)
-Lemma no_impl_rejected_param_l : forall ds r hs st h hh i src d0 sv t p,
+Lemma no_impl_rejected_param_l : forall n ds r hs st h hh i src d0 sv t p,
   wf_impls ds -> register_all empty_registry ds = inl r -> s_impls st = r_impls r ->
   find (fun x => String.eqb (h_name x) h) hs = Some hh -> h_iface hh = Some i -> src <> h_param hh ->
   alookup src (s_vars st) = Some sv -> src_view sv = Some (t, p) ->
   (forall d, In d ds -> ~ (i_iface d = i /\ i_type d = t)) ->
-  step hs st (OVia h src d0) = Fail (s_out st) (ENoImpl i t).
+  step n hs st (OVia h src d0) = Fail (s_out st) (ENoImpl i t).
 Proof.
-  intros ds r hs st h hh i src d0 sv t p W R I F HI NE S V N.
-  cbn [step]. rewrite F, HI.
+  intros n ds r hs st h hh i src d0 sv t p W R I F HI NE S V N.
+  unfold step. cbn [step_g]. rewrite F, HI.
   rewrite (no_impl_rejected_bind_l ds r (set_vars st (aremove (h_param hh) (s_vars st))) (h_param hh) i src sv t p); auto.
   simpl. rewrite alookup_aremove_other; assumption.
 Qed.
@@ -231,4 +291,14 @@ Lemma registration_iff_conflict_free_l : forall ds,
 Proof.
   intros ds. rewrite register_all_ok_iff. split; [intros [_ H]; exact H|].
   intros H. split; [apply Forall_forall; intros x _ e []|exact H].
+Qed.
+
+Lemma impl_context_stack_discipline_l :
+  (forall c p, wf_ctx c -> exit_ctx (enter_ctx c p) = c) /\
+  (forall c p, wf_ctx (enter_ctx c p) /\ c_cur (enter_ctx c p) = Some p) /\
+  wf_ctx ctx0 /\
+  (forall w, balanced w -> forall c, wf_ctx c -> run_acts c w = c) /\
+  (forall w c p, balanced w -> c_cur (run_acts (enter_ctx c p) w) = Some p).
+Proof.
+  split; [exact exit_enter|split; [intros; split; [apply wf_enter|reflexivity]|split; [exact wf_ctx0|split; [exact balanced_restores|exact balanced_inner_cur]]]].
 Qed.
